@@ -73,6 +73,36 @@ class C19(PropertyCheck):
         "numpy basic slicing and [::-1] flips are modelled as List.take/drop/reverse; checked by "
         "correspondence on every case",
     ]
+    modelled_functions = [
+        "autoarray/layout/layout_util.py:rotate_array_via_roe_corner_from",
+        "autoarray/layout/layout_util.py:rotate_region_via_roe_corner_from",
+        "autoarray/layout/layout_util.py:region_after_extraction",
+        "autoarray/layout/layout_util.py:x0x1_after_extraction",
+        "autoarray/layout/region.py:Region1D.__init__",
+        "autoarray/layout/region.py:Region1D.total_pixels",
+        "autoarray/layout/region.py:Region1D.slice",
+        "autoarray/layout/region.py:Region1D.front_region_from",
+        "autoarray/layout/region.py:Region1D.trailing_region_from",
+        "autoarray/layout/region.py:Region2D.__init__",
+        "autoarray/layout/region.py:Region2D.total_rows",
+        "autoarray/layout/region.py:Region2D.total_columns",
+        "autoarray/layout/region.py:Region2D.slice",
+        "autoarray/layout/region.py:Region2D.serial_x_front_range_from",
+        "autoarray/layout/region.py:Region2D.parallel_front_region_from",
+        "autoarray/layout/region.py:Region2D.parallel_trailing_region_from",
+        "autoarray/layout/region.py:Region2D.parallel_full_region_from",
+        "autoarray/layout/region.py:Region2D.serial_front_region_from",
+        "autoarray/layout/region.py:Region2D.serial_trailing_region_from",
+        "autoarray/layout/region.py:Region2D.serial_towards_roe_full_region_from",
+        "autoarray/layout/layout.py:Layout2D.__init__",
+        "autoarray/layout/layout.py:Layout2D.rotated_from_roe_corner",
+        "autoarray/layout/layout.py:Layout2D.new_rotated_from",
+        "autoarray/layout/layout.py:Layout2D.layout_extracted_from",
+        "autoarray/layout/layout.py:Layout2D.original_orientation_from",
+        "autoarray/layout/layout.py:Layout2D.extract_parallel_overscan_array_2d_from",
+        "autoarray/layout/layout.py:Layout2D.extract_serial_overscan_array_from",
+        "autoarray/structures/arrays/uniform_2d.py:AbstractArray2D.original_orientation",
+    ]
     assumptions = ["regions, windows and corners as quantified by the property: valid regions inside the "
                    "array, the four corners (1,0),(0,0),(1,1),(0,1)"]
 
